@@ -174,7 +174,7 @@ func TestC12Instances(t *testing.T) {
 	if ev.Thorough() {
 		maxN = 6
 	}
-	rep.Bound = fmt.Sprintf("rings of 1..%d instances with 2 tokens each from a 12-value alphabet spread over the circle (incl. 0, 1 and 2^32-1) in 4 placements; zone-awareness off (no zones) and on (every zone assignment up to renaming, <=3 zones); read-only flags: none or any single instance; %d identifiers; sizes 0..n+2; every single-instance removal (keeping the zone set) and every single read-only toggle", maxN, len(idents))
+	rep.Bound = fmt.Sprintf("rings of 1..%d instances with 2 tokens each from a 12-value alphabet spread over the circle (incl. 0, 1 and 2^32-1) in 4 placements; zone-awareness off (no zones) and on (every zone assignment up to renaming, <=3 zones); read-only flags: none or any single instance (switched long ago, in the second of the query, or 2 s ahead of it); %d identifiers; sizes 0..n+2; every single-instance removal (keeping the zone set) and every single read-only toggle", maxN, len(idents))
 	rep.Rule = "real Ring.ShuffleShard: (1) same answer from a second fresh client and from the cached path, (2) per zone min(ceil(size/zones), eligible) members (all writable ones for size<=0), (3) no read-only member, (4) shard(size) ⊆ shard(size+zones), (5) removing one instance or toggling one read-only flag adds <=1 and removes <=1 member; distinct_nontrivial = distinct (ring, identifier) pairs whose shard is a proper subset of the writable instances"
 	deadline := ev.Deadline(8 * time.Minute)
 	enum.Frozen(t, func() {
@@ -188,8 +188,13 @@ func TestC12Instances(t *testing.T) {
 			for _, z := range rgs(n, 3) {
 				cfgs = append(cfgs, cfg{true, z})
 			}
-			total := len(cfgs) * (n + 1) * len(layouts)
+			// when the read-only switch happened: long ago | in the very second of the query | two seconds "ahead" (clock skew):
+			// a plain shard excludes a read-only instance whatever that time is
+			roWhen := []int64{-5000, 0, 2}
+			total := len(cfgs) * (n + 1) * len(layouts) * len(roWhen)
 			ok := enum.Par(total, deadline, func() bool { return rep.NumViolations() >= 10 }, func(ix int) {
+				roAt := now.Unix() + roWhen[ix%len(roWhen)]
+				ix /= len(roWhen)
 				cf := cfgs[ix%len(cfgs)]
 				roIdx := ix / len(cfgs) % (n + 1) // n = nobody read-only
 				lay := layouts[ix/len(cfgs)/(n+1)]
@@ -201,7 +206,7 @@ func TestC12Instances(t *testing.T) {
 					}
 					in := inst{id: fmt.Sprintf("i%d", i), zone: z, regTS: now.Unix() - 10000, tokens: []uint32{tokAlpha[lay[i]], tokAlpha[lay[i+6]]}}
 					if i == roIdx {
-						in.ro, in.roTS = true, now.Unix()-5000
+						in.ro, in.roTS = true, roAt
 					}
 					sort.Slice(in.tokens, func(a, b int) bool { return in.tokens[a] < in.tokens[b] })
 					c.insts = append(c.insts, in)
